@@ -45,6 +45,7 @@ ASSUMPTIONS = [
     "a build in which all supplied segments lie before the initial offset (empty image) is not generated",
     "parse is called with the family, revision and memory type the image was built for (no auto-detection across memory types)",
     "block sizes beyond the room to the next segment's offset are outside the property's quantifier and are not generated",
+    "a merge may refuse (documented error) only an opaque block longer than its fixed format size; refusing well-formed fitting segments is judged",
 ]
 REQUIRED_COUNTERS = [
     "images_built",
@@ -70,6 +71,33 @@ DRAWS = 15
 WITNESSES = [
     {"family": "lpc5534", "memory": "flexspi_nor", "init": 0x600},
     {"family": "mimxrt1024", "memory": "flexspi_nor", "init": 0x400},
+]
+# directed witnesses: an image that starts at the FCB (an INIT_SEGMENT start) whose application holds, where the
+# full layout would look for the MBI, a word that reads as (a) a plain image type, (b) a signed image type with a
+# custom TrustZone block
+LENIENT_MBI = "bimg-later-start-image-claimed-by-lenient-plain-mbi-match"
+WITNESSES_MBI = [
+    {"family": "mcxn947", "memory": "flexspi_nor", "init_segment": "fcb", "word": 0x00000000},
+    {"family": "mimxrt595s", "memory": "flexspi_nor", "init_segment": "fcb", "word": 0x00002004,
+     "directives": {"omit": ["keystore"]}},
+]
+# directed cases: one deterministic instance of every input feature that was seen to matter (all segments supplied
+# unless told otherwise); they simply agree with the oracle on a tree where the behaviour is repaired
+DIRECTED = [
+    {"what": "no application container", "family": "mimxrt1189", "memory": "flexspi_nor",
+     "directives": {"omit": ["ahab_container"]}},
+    {"what": "no application container", "family": "lpc5536", "memory": "flexspi_nor", "directives": {"omit": ["mbi"]}},
+    {"what": "hab_container key omitted", "family": "mimxrt1015", "memory": "flexspi_nor",
+     "directives": {"omit": ["hab_container"]}},
+    {"what": "key blob fills the room to the next offset", "family": "mimxrt1010", "memory": "flexspi_nor",
+     "directives": {"opaque": {"keyblob": "room"}}},
+    {"what": "BEE header one byte longer than its format size", "family": "mimxrt1024", "memory": "flexspi_nor",
+     "directives": {"opaque": {"bee_header_0": "fmt+1"}}},
+    {"what": "full FlexSPI-RAM XMCD (516 bytes)", "family": "mimxrt1189", "memory": "flexspi_nor",
+     "directives": {"xmcd": ["flexspi_ram", "full"]}},
+    {"what": "initial offset in a layout with a floating segment", "family": "mimx8ulp", "memory": "flexspi_nor", "init": 0x400},
+    {"what": "initial offset in a layout with a floating segment", "family": "mimx9352", "memory": "sd", "init": 0x8000},
+    {"what": "FCB for a family without FCB description", "family": "mimx9352", "memory": "flexspi_nor"},
 ]
 
 _CACHE: dict = {}
@@ -127,6 +155,10 @@ def cases(tier, seed):
     lay = _layouts()
     for w in WITNESSES:
         yield {"kind": "witness", **w}
+    for w in WITNESSES_MBI:
+        yield {"kind": "witness_mbi", **w}
+    for w in DIRECTED:
+        yield {"kind": "directed", **w}
     if tier == "thorough":
         # every triple: the directed sweep (all segments, every segment start as initial offset), then the draws
         for f, r, m, _ in tr:
@@ -191,11 +223,20 @@ def _payload(rng, n: int) -> bytes:
 
 
 def _vector_table_app(rng, n: int, base: int) -> bytes:
-    """Cortex-M shaped application: initial SP, odd reset vector inside the image."""
+    """Cortex-M shaped application: initial SP, odd reset vector inside the image.
+
+    Every word at 0x24 modulo 0x100 holds 0x7F7F7F7F: when an image that starts at a later initial offset is tried
+    against an earlier-start layout, the MBI parser is handed bytes from the middle of the application and reads
+    its image type there; what it does with a type / TrustZone field that happens to be valid (accepts the bytes as
+    an MBI of their own, or trips an assertion) depends on chance.  0x3F is no image type, so the random workload is
+    free of that chance; the two directed witnesses put a chosen word there instead.
+    """
     n = max(n, 8)
     body = bytearray(_payload(rng, n))
     body[0:4] = struct.pack("<I", 0x20002000)
     body[4:8] = struct.pack("<I", (base + 0x40) | 1)
+    for o in range(0x124, n - 3, 0x100):
+        body[o:o + 4] = b"\x7f\x7f\x7f\x7f"
     return bytes(body)
 
 
@@ -224,15 +265,15 @@ def _build_fcb(fam, rev, mem, rng):
     return _CACHE[key]
 
 
-def _build_xmcd(fam, rev, rng):
+def _build_xmcd(fam, rev, rng, combo=None):
     from spsdk.image.mem_type import MemoryType
     from spsdk.image.xmcd.xmcd import XMCD, ConfigurationBlockType
 
     mts = XMCD.get_memory_types_config(fam, rev)
     combos = [(m, c) for m, cfgs in mts.items() for c in cfgs.keys()]
-    if not combos:
-        raise core.Inconclusive(f"no XMCD description for {fam}")
-    m, c = core.pick(rng, combos)
+    if not combos or (combo is not None and tuple(combo) not in combos):
+        raise core.Inconclusive(f"no XMCD description {combo or ''} for {fam}")
+    m, c = tuple(combo) if combo is not None else core.pick(rng, combos)
     key = ("xmcd", fam, rev, m, c)
     if key not in _CACHE:
         x = XMCD(fam, MemoryType.from_label(m), ConfigurationBlockType.from_label(c), rev)
@@ -266,7 +307,9 @@ def _mbi_variants(fam, rev):
     return _CACHE[key]
 
 
-def _build_mbi(fam, rev, rng, wd, size_cls):
+def _build_mbi(fam, rev, rng, wd, size_cls, flags_at=None):
+    """A small real plain / CRC MBI.  ``flags_at`` = (offset, word): the application holds ``word`` where an MBI
+    that started at ``offset`` would keep its image type / flags (0x24) - directed witnesses only."""
     from spsdk.exceptions import SPSDKError
     from spsdk.image.mbi.mbi import get_mbi_class
     from spsdk.utils.schema_validator import check_config
@@ -278,6 +321,12 @@ def _build_mbi(fam, rev, rng, wd, size_cls):
     n = {"small": 0x140, "mid": rng.randrange(0x200, 0x600), "large": rng.randrange(0x800, 0x2400)}[size_cls]
     n += rng.randrange(0, 4) if size_cls != "small" else 0
     app = _vector_table_app(rng, n, 0x10000000)
+    if flags_at is not None:
+        at, word = flags_at
+        app = bytearray(app.ljust(at + 0x200, b"\x33"))
+        app[at + 0x24:at + 0x28] = struct.pack("<I", word)
+        app = bytes(app)
+        variants = [v for v in variants if v == ("xip", "plain")] or variants
     with open(os.path.join(wd, "mbi_app.bin"), "wb") as f:
         f.write(app)
     version = rng.randrange(0, 8)
@@ -419,6 +468,8 @@ def _opaque_sizes(raw, name):
     fmt = bimg_ref.FORMAT_SIZE[name]
     room = bimg_ref.room_after(raw, name)
     out = {"1": 1, "mid": max(2, fmt // 2 + 3), "fmt-1": fmt - 1, "fmt": fmt}
+    if room is not None and room > fmt:
+        out["fmt+1"] = fmt + 1
     if room is not None:
         out["room-1"] = room - 1
         out["room"] = room
@@ -470,8 +521,13 @@ def _container_status(name, fam, rev, data):
     return "ok" if again == data else "not-idempotent"
 
 
-def _make_plan(case, raw, rng, wd, *, full=False, init_req=None, container_size=None):
-    """Choose and build the segments of one image.  Returns a plan dict."""
+def _make_plan(case, raw, rng, wd, *, full=False, init_req=None, container_size=None, version_always=False,
+               mbi_flags_at=None, directives=None):
+    """Choose and build the segments of one image.  Returns a plan dict.
+
+    ``directives`` (directed cases): {"omit": [segment names], "opaque": {name: size label}, "xmcd": [memory, type]}.
+    """
+    directives = directives or {}
     fam, rev, mem = case["family"], case["revision"], case["memory"]
     segs = bimg_ref.layout_segments(raw)
     names = [n for n, _ in segs]
@@ -488,8 +544,11 @@ def _make_plan(case, raw, rng, wd, *, full=False, init_req=None, container_size=
     for idx, name in enumerate(names):
         key = CFG_KEY.get(name, name)
         data = None
+        if name in directives.get("omit", ()):
+            absent_form[name] = "omit"
+            continue
         if name in ("image_version", "image_version_ap"):
-            if want(0.7):
+            if version_always or want(0.7):
                 val = core.pick(rng, [0, 1, 5, 0x1234, 0xFFFE, 0xFFFF]) if name == "image_version_ap" else core.pick(
                     rng, [0, 1, 7, 0x01020304, 0xFFFFFFFF])
                 config[key] = val
@@ -502,12 +561,12 @@ def _make_plan(case, raw, rng, wd, *, full=False, init_req=None, container_size=
         if name in OPAQUE:
             if not want(0.7):
                 pass
-            elif name.startswith("bee_header") and rng.random() < 0.5:
+            elif name.startswith("bee_header") and name not in directives.get("opaque", {}) and rng.random() < 0.5:
                 data = _build_bee_header(rng)
                 meta[name] = "bee-region-header"
             else:
                 sizes = _opaque_sizes(raw, name)
-                label = "fmt" if full else core.pick(rng, sorted(sizes))
+                label = directives.get("opaque", {}).get(name) or ("fmt" if full else core.pick(rng, sorted(sizes)))
                 data = _payload(rng, sizes[label])
                 meta[name] = f"opaque:{label}"
         elif name in ("fcb", "fcb_xspi"):
@@ -516,7 +575,7 @@ def _make_plan(case, raw, rng, wd, *, full=False, init_req=None, container_size=
                 meta[name] = f"fcb:{how}"
         elif name == "xmcd":
             if want(0.7):
-                data, how = _build_xmcd(fam, rev, rng)
+                data, how = _build_xmcd(fam, rev, rng, directives.get("xmcd"))
                 meta[name] = f"xmcd:{how}"
         else:
             floating = dict(segs)[name] < 0
@@ -525,7 +584,7 @@ def _make_plan(case, raw, rng, wd, *, full=False, init_req=None, container_size=
             if want(p) and not (floating and names[idx - 1] not in supplied):
                 size_cls = container_size or core.pick(rng, ["small", "mid", "large"])
                 if name == "mbi":
-                    data, how = _build_mbi(fam, rev, rng, wd, size_cls)
+                    data, how = _build_mbi(fam, rev, rng, wd, size_cls, flags_at=mbi_flags_at)
                 elif name == "hab_container":
                     data, how = _build_hab(fam, rev, mem, raw, rng, wd, size_cls)
                 elif name in ("ahab_container", "primary_image_container_set", "secondary_image_container_set"):
@@ -613,6 +672,16 @@ def _witness(case, plan, extra=None):
     return w
 
 
+def _refusal_expected(raw, plan):
+    """May the merge refuse this input?  Only an opaque block longer than its fixed format size is a reason; every
+    other generated input consists of well-formed segments that fit the layout."""
+    for name, data in plan["supplied"].items():
+        size = bimg_ref.FORMAT_SIZE.get(name)
+        if name in OPAQUE and size and len(data) > size:
+            return True
+    return False
+
+
 def _in_image(raw, plan):
     """Supplied segments that belong to the image (not cut off by the initial offset)."""
     dboff = dict(bimg_ref.layout_segments(raw))
@@ -669,12 +738,12 @@ def _judge_image_info(ctx, case, raw, plan, bimg, exp, image):
     ctx.count("image_info_checked")
 
 
-def _parse_key(raw, plan, observed_init, message=""):
+def _parse_key(raw, plan, observed_init, message="", parsed=None):
     """Mechanism key for a parse that was rejected (observed_init None) or returned another initial offset.
 
     The known finding is assigned only when the initial offset is the (non-zero) start of a segment whose class has
     INIT_SEGMENT = False and the failure is the one described: the generic 'not matching any of memory types'
-    rejection, or a result attributed to another initial offset.  Every other rejection is named after the
+    rejection, or a result attributed to another initial offset.  Every other failure is named after the
     feature of the case that explains it, else it gets the generic key.
     """
     present = _in_image(raw, plan)
@@ -682,15 +751,32 @@ def _parse_key(raw, plan, observed_init, message=""):
     if plan["init"] and _init_class(raw, plan["init"]) == "non-init-segment":
         if not rejected or "not matching any of memory types" in message:
             return KNOWN_INIT
+    if not any(n in bimg_ref.CONTAINER_KINDS for n in present):
+        # no application container in the image: rejected, or the header bytes are taken for a later-start image
+        return "bimg-header-only-image-not-parsable"
     if rejected:
-        if not any(n in bimg_ref.CONTAINER_KINDS for n in present):
-            return "bimg-header-only-image-not-parsable"
         fcbs = [n for n in present if n in ("fcb", "fcb_xspi")]
         if fcbs and str(plan["meta"].get(fcbs[0], "")).startswith("fcb:donor"):
             return "bimg-fcb-of-family-without-fcb-support-not-parsable"
         if "xmcd" in present and len(present["xmcd"]) > 512:
             return "bimg-xmcd-longer-than-512-rejected-on-parse"
-    return "bimg-parse-rejects-own-image" if rejected else "bimg-parse-wrong-init-offset"
+        return "bimg-parse-rejects-own-image"
+    if parsed is not None and "mbi" in parsed and parsed["mbi"] != present.get("mbi") and observed_init < plan["init"]:
+        # an earlier-start interpretation was accepted because the plain-MBI parser took bytes from the middle of
+        # the real MBI for an MBI of their own
+        return LENIENT_MBI
+    return "bimg-parse-wrong-init-offset"
+
+
+def _crash_key(plan, exc):
+    """Mechanism key for a non-SPSDK exception escaping BootableImage.parse."""
+    import traceback
+
+    frames = [os.path.basename(fr.filename) for fr in traceback.extract_tb(exc.__traceback__)]
+    if plan["init"] and any(f.startswith("mbi") for f in frames):
+        # an earlier-start layout was tried first and handed bytes from the middle of the application to the MBI parser
+        return f"bimg-later-start-image-crashes-mbi-parser:{type(exc).__name__}"
+    return f"bimg-parse-crash:{type(exc).__name__}"
 
 
 def _compare_segment(ctx, case, plan, name, data, got, fb, where):
@@ -735,10 +821,17 @@ def _judge_parse(ctx, case, raw, plan, image):
                       _witness(case, plan, {"where": "api parse", "error": core.exc_brief(e), "image_length": len(image),
                                             "init_class": _init_class(raw, init)}))
         return False
+    except Exception as e:  # pylint: disable=broad-except
+        if core.origin_of(e) != "repo":
+            raise
+        ctx.violation(_crash_key(plan, e), _witness(case, plan, {"where": "api parse", "exception": core.exc_brief(e),
+                                                               "init_class": _init_class(raw, init)}))
+        return False
     if parsed.init_offset != init:
-        got = {s.NAME.label: len(s.export()) for s in parsed.segments}
-        ctx.violation(_parse_key(raw, plan, parsed.init_offset),
-                      _witness(case, plan, {"where": "api parse", "parsed_init_offset": parsed.init_offset, "parsed_segments": got,
+        got = {s.NAME.label: bytes(s.export()) for s in parsed.segments}
+        ctx.violation(_parse_key(raw, plan, parsed.init_offset, parsed=got),
+                      _witness(case, plan, {"where": "api parse", "parsed_init_offset": parsed.init_offset,
+                                            "parsed_segments": {n: len(b) for n, b in got.items()},
                                             "init_class": _init_class(raw, init)}))
         return False
     fb = bimg_ref.fill_byte(raw)
@@ -790,6 +883,9 @@ def _build_api(ctx, case, raw, plan, wd, sig):
             return None
         image = bimg.export()
     except SPSDKError as e:
+        if not _refusal_expected(raw, plan):
+            ctx.violation("bimg-merge-refuses-well-formed-segments", _witness(case, plan, {"where": "api", "error": core.exc_brief(e)}))
+            return None
         ctx.refused(sig, core.exc_brief(e))
         ctx.note("refused_build", {"family": case["family"], "memory": case["memory"], "why": core.exc_brief(e)})
         return None
@@ -838,7 +934,7 @@ def _draw_plan(case, raw, rng, wd, **kw):
 def run_case(case, ctx):
     kind = case["kind"]
     rng = ctx.rng
-    if kind in ("witness", "cli"):
+    if kind in ("witness", "witness_mbi", "directed", "cli"):
         case = dict(case, revision=_latest_name(case["family"]))
     raw = _raw_layout(case["family"], case["revision"], case["memory"])
     try:
@@ -856,6 +952,31 @@ def run_case(case, ctx):
         plan = _make_plan(case, raw, rng, wd, full=True, init_req=init, container_size="small")
         ctx.count("known_witness")
         _run_api(ctx, case, raw, plan, wd, _sig(raw, plan, "witness"))
+        shutil.rmtree(wd, ignore_errors=True)
+        return
+
+    if kind == "directed":
+        wd = _fresh_dir(ctx, "dir")
+        plan = _make_plan(case, raw, rng, wd, full=True, init_req=case.get("init", 0), container_size="small",
+                          directives=case.get("directives"))
+        if not _in_image(raw, plan):
+            raise core.Inconclusive("directed case builds no image")
+        ctx.count("directed_cases")
+        _run_api(ctx, case, raw, plan, wd, _sig(raw, plan, "directed"))
+        shutil.rmtree(wd, ignore_errors=True)
+        return
+
+    if kind == "witness_mbi":
+        dboff = dict(bimg_ref.layout_segments(raw))
+        seg = case["init_segment"]
+        if seg not in dboff or "mbi" not in dboff or not 0 < dboff[seg] < dboff["mbi"] or not _init_segment_flag(seg):
+            raise core.Inconclusive("witness precondition gone: no INIT_SEGMENT start between 0 and the MBI")
+        wd = _fresh_dir(ctx, "wm")
+        # the full-layout pass looks for the MBI at its database offset, i.e. (initial offset) bytes into the real MBI
+        plan = _make_plan(case, raw, rng, wd, full=True, init_req=dboff[seg], container_size="large",
+                          mbi_flags_at=(dboff[seg], case["word"]), directives=case.get("directives"))
+        ctx.count("lenient_mbi_witness")
+        _run_api(ctx, case, raw, plan, wd, _sig(raw, plan, "witness_mbi"))
         shutil.rmtree(wd, ignore_errors=True)
         return
 
@@ -901,7 +1022,9 @@ def _run_cli(ctx, case, raw, wd):
     from spsdk.image.bootable_image.bimg import BootableImage
 
     rng = ctx.rng
-    plan = _draw_plan(case, raw, rng, wd)
+    # the erased image-version word (nothing configured) has no configuration value that regenerates it, so the
+    # parse -> merge comparison below is only meaningful with a configured version
+    plan = _draw_plan(case, raw, rng, wd, version_always=True)
     if plan["init_form"] == "name":  # the configuration file takes numbers only
         plan["init_form"] = "int"
         if plan["init_req"]:
@@ -922,6 +1045,8 @@ def _run_cli(ctx, case, raw, wd):
                 ctx.violation("bimg-hab-container-key-absent-keyerror", _witness(case, plan, {"where": "cli merge", "exception": text}))
             else:
                 ctx.violation(f"bimg-cli-merge-crash:{type(exc).__name__}", _witness(case, plan, {"exception": text}))
+        elif not _refusal_expected(raw, plan):
+            ctx.violation("bimg-merge-refuses-well-formed-segments", _witness(case, plan, {"where": "cli merge", "error": text}))
         else:
             ctx.refused(sig, f"cli merge exit {res.exit_code}: {text}")
             ctx.note("refused_build", {"family": case["family"], "memory": case["memory"], "why": text})
@@ -951,7 +1076,7 @@ def _run_cli(ctx, case, raw, wd):
     if res.exit_code != 0 or not os.path.isfile(cfg_out):
         exc, text = _cli_failure(res)
         if exc is not None and not core.is_refusal(exc):
-            ctx.violation(f"bimg-cli-parse-crash:{type(exc).__name__}", _witness(case, plan, {"exception": text}))
+            ctx.violation(_crash_key(plan, exc), _witness(case, plan, {"where": "cli parse", "exception": text}))
         else:
             ctx.violation(_parse_key(raw, plan, None, text),
                           _witness(case, plan, {"where": "cli parse", "exit_code": res.exit_code, "error": text,
@@ -960,7 +1085,12 @@ def _run_cli(ctx, case, raw, wd):
     with open(cfg_out, encoding="utf-8") as f:
         pcfg = yaml.safe_load(f)
     if pcfg.get("init_offset", 0) != init:
-        ctx.violation(_parse_key(raw, plan, pcfg.get("init_offset", 0)),
+        got = {}
+        mp = os.path.join(pdir, "segment_mbi.bin")
+        if os.path.isfile(mp):
+            with open(mp, "rb") as f:
+                got["mbi"] = f.read()
+        ctx.violation(_parse_key(raw, plan, pcfg.get("init_offset", 0), parsed=got),
                       _witness(case, plan, {"where": "cli parse", "parsed_init_offset": pcfg.get("init_offset")}))
         return
     fb = bimg_ref.fill_byte(raw)
@@ -970,8 +1100,7 @@ def _run_cli(ctx, case, raw, wd):
             ctx.count("segments_compared")
             val = pcfg.get("image_version")
             same = isinstance(val, int) and bimg_ref.image_version_bytes(name, val) == data
-            # the erased antipole word has no configuration value of its own: its 16-bit reading is tolerated
-            if not same and not (name == "image_version_ap" and data == b"\xff" * 4 and val == 0xFFFF):
+            if not same:
                 ctx.violation("bimg-cli-parse-image-version", _witness(case, plan, {"parsed_value": val, "supplied": core.hx(data)}))
                 good = False
             continue
@@ -998,8 +1127,15 @@ def _run_cli(ctx, case, raw, wd):
         res = runner.invoke(nxpimage.main, ["bootable-image", "merge", "-c", cfg_out, "-o", out2], catch_exceptions=True)
     ctx.count("reexport_checked")
     if res.exit_code != 0 or not os.path.isfile(out2):
-        _exc, text = _cli_failure(res)
-        ctx.violation("bimg-cli-parsed-config-not-mergeable", _witness(case, plan, {"exit_code": res.exit_code, "error": text}))
+        exc, text = _cli_failure(res)
+        if exc is not None and not core.is_refusal(exc):
+            ctx.violation(f"bimg-cli-merge-crash:{type(exc).__name__}", _witness(case, plan, {"where": "merge of the parsed configuration", "exception": text}))
+            return
+        # merge refuses the configuration that parse wrote (documented error): counted and reported, not judged -
+        # the segment files were compared above
+        ctx.count("cli_parsed_config_refused_by_merge")
+        ctx.note("cli_parsed_config_refused_by_merge", {"family": case["family"], "memory": case["memory"], "why": text[:260]})
+        ctx.ok(sig, sample={"family": case["family"], "memory": case["memory"], "init_offset": init, "cli": True, "remerge": "refused"})
         return
     with open(out2, "rb") as f:
         image2 = f.read()
@@ -1009,3 +1145,29 @@ def _run_cli(ctx, case, raw, wd):
         return
     ctx.ok(sig, sample={"family": case["family"], "memory": case["memory"], "init_offset": init, "cli": True,
                         "image_length": len(image), "how": plan["meta"]})
+
+
+def extra_coverage(events, counters):
+    """Measured coverage keys for the evidence file (runs in the parent, from the worker logs)."""
+    import json
+
+    layouts, init_classes, kinds, forms, segsets = set(), {}, {}, {}, set()
+    for ev in events:
+        if ev.get("t") != "ok" or "sig" not in ev:
+            continue
+        try:
+            kind, layout, icls, form, segs = json.loads(ev["sig"])
+        except (ValueError, TypeError):
+            continue
+        layouts.add(layout)
+        init_classes[icls] = init_classes.get(icls, 0) + 1
+        kinds[kind] = kinds.get(kind, 0) + 1
+        forms[form] = forms.get(form, 0) + 1
+        segsets.add((layout, tuple(s.split("=")[0] for s in segs)))
+    return {
+        "layouts_with_agreeing_cases": len(layouts),
+        "distinct_signatures_by_initial_offset_class": init_classes,
+        "distinct_signatures_by_case_kind": kinds,
+        "distinct_signatures_by_initial_offset_request_form": forms,
+        "distinct_layout_x_supplied_segment_sets": len(segsets),
+    }
